@@ -12,6 +12,7 @@
 //	rep   Bridge.reportTrafficStats under a forced interleaving (gated CloudControl)
 //	brg   Bridge.Close, cleanup report racing the periodic goroutine's final report
 //	sp    StreamProcessor.Close against an in-flight ReadPacket/WritePacket (gated transport)
+//	bat   Bridge.Close and connections attached between Close calls (late SetTarget/SetSourceConnection)
 //	bg    Close while the storage cleaner / session sweep is mid-tick (storage lock held by a parked reader)
 //	tst   Tunnel.Start parked at its interface calls (manager.Ctx(), log) while Close calls run to completion
 //	flow  started Bridge with data in flight: EOF / endpoint error / Close / parent-context cancel; totals vs bytes delivered
@@ -60,6 +61,8 @@ func exec(caseStr string) (obs string) {
 			return runTst(t)
 		case "bg":
 			return runBg(t)
+		case "bat":
+			return runBat(t)
 		}
 		return "bad case"
 	})
@@ -271,6 +274,53 @@ func gen(out *vc.Out, r *vc.Rand, thorough bool) {
 		emit(out, "", fmt.Sprintf("sp op z chunks 0 cut -1 n %d rep %d %s", n, 20*mul, ms()))
 	}
 	emit(out, "", fmt.Sprintf("sp op z chunks 0 cut -1 n 16 rep %d %s", 50*mul, ms()))
+
+	// bat: histories of Close / late attach (each side attached only while its field is empty), always
+	// ended by the last Close; every history of length ≤ 4 over {c, t, s, ct, cs, cc}, then longer random ones
+	batOps := []string{"c", "t", "s", "ct", "cs", "cc"}
+	var batHist func(prefix []string, srcSet, tgtSet bool, depth int)
+	batHist = func(prefix []string, srcSet, tgtSet bool, depth int) {
+		if len(prefix) > 0 {
+			h := append(append([]string{}, prefix...), "c")
+			emit(out, "", fmt.Sprintf("bat start %d h %d %s rep %d %s", len(h)%2, len(h), strings.Join(h, " "), mul, ms()))
+		}
+		if depth == 0 {
+			return
+		}
+		for _, op := range batOps {
+			s2, t2 := srcSet, tgtSet
+			switch op {
+			case "c", "cc":
+				s2, t2 = false, false
+			case "t":
+				if tgtSet {
+					continue
+				}
+				t2 = true
+			case "s":
+				if srcSet {
+					continue
+				}
+				s2 = true
+			case "ct":
+				if tgtSet {
+					continue
+				}
+				s2, t2 = false, true // the attach may land after the racing Close
+			case "cs":
+				if srcSet {
+					continue
+				}
+				s2, t2 = true, false
+			}
+			batHist(append(prefix, op), s2, t2, depth-1)
+		}
+	}
+	depth := 2
+	if thorough {
+		depth = 3
+	}
+	batHist(nil, true, false, depth)
 
 	// bg: Close while a background loop of the component is in the middle of a tick
 	for _, order := range []string{"close", "tick"} {
